@@ -4,6 +4,7 @@ import (
 	"context"
 	"encoding/json"
 	"fmt"
+	mqtt "github.com/eclipse/paho.mqtt.golang"
 	"os"
 	"runtime"
 	"sort"
@@ -51,10 +52,39 @@ func hookBeforeTry(try func() bool) {
 	}
 }
 
+//go:norace
+func hookWillSpawn() uint64 {
+	if s := activeSched; s != nil {
+		return s.willSpawn()
+	}
+	return 0
+}
+
+//go:norace
+func hookGoStart(id uint64) {
+	if s := activeSched; s != nil {
+		s.goStart(id)
+	}
+}
+
+//go:norace
+func hookGoDone(x interface{}) {
+	if s := activeSched; s != nil {
+		s.goDone(x)
+		return
+	}
+	if x != nil {
+		panic(x)
+	}
+}
+
 func installHooks() {
 	simhook.YieldFunc = hookYield
 	simhook.BeforeLockFunc = hookBeforeLock
 	simhook.BeforeTryFunc = hookBeforeTry
+	simhook.WillSpawnFunc = hookWillSpawn
+	simhook.GoStartFunc = hookGoStart
+	simhook.GoDoneFunc = hookGoDone
 }
 
 func init() {
@@ -71,6 +101,11 @@ type Config struct {
 	Kind    string `json:"kind"` // counter | map | list
 	Sched   uint64 `json:"sched"`
 	Foreign int    `json:"foreign"` // operations a remote replica contributes between syncs
+	// Realtime: the shared client is in realtime mode: every local operation starts a delivery goroutine
+	// of the library (a task of the scheduler through the inserted WillSpawn/GoStart/GoDone), which
+	// pushes by itself; the sync task's Sync() calls come on top. Notifications are not simulated here
+	// (engine B does that): the remote replica's operations arrive with the next exchange.
+	Realtime bool `json:"realtime,omitempty"`
 }
 
 // Ev is one scripted call of a task. All events of one task keep their order; tasks interleave.
@@ -253,16 +288,42 @@ func Execute(plan *kernel.Plan, known map[string]bool, verbose bool) *kernel.Res
 }
 
 func (r *run) body(evs []Ev) {
-	client := orda.NewClient(&orda.ClientConfig{ServerAddr: "sim", NotificationAddr: "sim", CollectionName: "c", SyncType: model.SyncType_MANUALLY}, "shared")
-	if err := client.Connect(); err != nil {
-		panic("connect: " + err.Error())
+	st := model.SyncType_MANUALLY
+	if r.cfg.Realtime {
+		st = model.SyncType_REALTIME
+		simhook.MQTTFunc = func(interface{}) interface{} { return &nullMQTT{} }
+		defer func() { simhook.MQTTFunc = nil }()
+		r.res.Probes["realtime"]++
 	}
+	// Set-up runs as a task of its own: in realtime mode creating the datatype already starts a delivery
+	// goroutine of the library, which has to be under the scheduler like every other one.
+	var client orda.Client
 	typ := kindType(r.cfg.Kind)
-	r.pub = client.CreateDatatype("k", typ, nil)
-	r.shared = r.pub.(iface.Datatype)
-	if err := client.Sync(); err != nil { // creates the datatype on the model server
-		panic("first sync: " + err.Error())
+	setupErr := ""
+	r.s.spawn("setup", func() {
+		client = orda.NewClient(&orda.ClientConfig{ServerAddr: "sim", NotificationAddr: "sim", CollectionName: "c", SyncType: st}, "shared")
+		if err := client.Connect(); err != nil {
+			setupErr = "connect: " + err.Error()
+			return
+		}
+		r.pub = client.CreateDatatype("k", typ, nil)
+		r.shared = r.pub.(iface.Datatype)
+		if err := client.Sync(); err != nil { // creates the datatype on the model server
+			setupErr = "first sync: " + err.Error()
+		}
+	})
+	r.s.run()
+	if setupErr != "" || r.s.dead || r.s.over || client == nil {
+		panic("engine C set-up failed: " + setupErr)
 	}
+	defer func() {
+		done := make(chan struct{})
+		go func() { defer close(done); defer func() { recover() }(); _ = client.Close() }()
+		select {
+		case <-done:
+		case <-time.After(2 * time.Second):
+		}
+	}()
 	// the remote replica (not shared; driven by the sync task only)
 	rc := orda.NewClient(orda.NewLocalClientConfig("c"), "remote")
 	switch typ {
@@ -459,8 +520,17 @@ func (r *run) judge(client orda.Client, rrecv *int) {
 		return
 	}
 	// final sync (single-threaded now) so that everything issued has been pushed
-	if err := client.Sync(); err != nil {
-		r.fail("C20.queued-once-in-order", "final-sync", "final Sync failed: %v", err)
+	syncDone := make(chan error, 1)
+	go func() { syncDone <- client.Sync() }()
+	select {
+	case err := <-syncDone:
+		if err != nil {
+			r.fail("C20.queued-once-in-order", "final-sync", "final Sync failed: %v", err)
+			return
+		}
+	case <-time.After(10 * time.Second):
+		// nobody else is running any more: whatever Sync() waits for will never be released
+		r.fail("C20.no-deadlock", "sync-never-returns", "after all goroutines finished, Sync() does not return: it waits for something that nobody holds any more (a lock or the delivery semaphore was not released)")
 		return
 	}
 	if r.srv.bad != "" {
@@ -658,3 +728,29 @@ func encodeMap(m map[string]string) string {
 	b, _ := json.Marshal(m)
 	return string(b)
 }
+
+// nullMQTT stands in for the notification client of a realtime client in engine C: it connects and
+// subscribes successfully and never delivers anything.
+type nullMQTT struct{}
+
+type nullToken struct{}
+
+func (nullToken) Wait() bool                     { return true }
+func (nullToken) WaitTimeout(time.Duration) bool { return true }
+func (nullToken) Done() <-chan struct{}          { c := make(chan struct{}); close(c); return c }
+func (nullToken) Error() error                   { return nil }
+
+func (*nullMQTT) IsConnected() bool                                  { return true }
+func (*nullMQTT) IsConnectionOpen() bool                             { return true }
+func (*nullMQTT) Connect() mqtt.Token                                { return nullToken{} }
+func (*nullMQTT) Disconnect(uint)                                    {}
+func (*nullMQTT) Publish(string, byte, bool, interface{}) mqtt.Token { return nullToken{} }
+func (*nullMQTT) Subscribe(string, byte, mqtt.MessageHandler) mqtt.Token {
+	return nullToken{}
+}
+func (*nullMQTT) SubscribeMultiple(map[string]byte, mqtt.MessageHandler) mqtt.Token {
+	return nullToken{}
+}
+func (*nullMQTT) Unsubscribe(...string) mqtt.Token        { return nullToken{} }
+func (*nullMQTT) AddRoute(string, mqtt.MessageHandler)    {}
+func (*nullMQTT) OptionsReader() mqtt.ClientOptionsReader { return mqtt.ClientOptionsReader{} }
